@@ -526,6 +526,19 @@ def engine : Engine (Option HState) where
           (some { hs with c := (hs.c.step (.answer k)).1 }, { model := if hasTok (obsOf r).events then "held" else "done" })
         | none => (st, { model := "no-such-attempt" })
       | _, _ => (st, { model := "bad-op" })
+    | ["ctor", k] =>
+      -- attempt `k` goes on up to the configured NewTokenSource and is held INSIDE it (`ctor`): the code is exchanged, its
+      -- next statement is `h.tokenSource = ts`; `done` = it ended without reaching the constructor.  Still no effect on the
+      -- model handler (`Step.answer`: any progress of an attempt before its last statement).
+      match st, k.toNat? with
+      | some hs, some k =>
+        match hs.cases.lookup k with
+        | some c =>
+          let r := attemptResult hs.c.cfg k c.attempt
+          (some { hs with c := (hs.c.step (.answer k)).1 },
+           { model := if hs.nts && (r.installed || r.outcome == .tsErr) then "ctor" else "done" })
+        | none => (st, { model := "no-such-attempt" })
+      | _, _ => (st, { model := "bad-op" })
     | ["end", k] =>
       match st, k.toNat? with
       | some hs, some k => finishStep hs k impl
